@@ -416,7 +416,7 @@ func TestCheck(t *testing.T) {
 	vfw.Main(t, "C09", func(c *vfw.Ctx) {
 		c.Level("model_checking")
 		c.Rule("E2 enumeration: roles {active, passive} x synchronous sends awaiting a reply {0,1,2} x a send blocked mid-write {no, yes} x queued fire-and-forget sends {0,1,3} (and 70, more than the send queue holds, behind a blocked write, for every ending event) x generation-ending event {peer close, peer reset, write timeout, Close+Open, linktest failure, T8 inside a frame, Separate.req} x failed dials before the reconnect {0,2} x late reply for an old transaction {no, yes} x new sends {0,2} (thorough: the full product; quick: a covering subset) on a real hsmsss connection in a synctest bubble; every payload carries a token naming the generation whose send call accepted it; oracle: the generation-2 socket never carries a generation-1 token, every generation-1 waiter returns connection-closed / its own timeout within close timeout + write timeout of the drop and never a reply, a late reply never completes a generation-2 send, generation-2 sends get their own replies. non-trivial = at least one generation-1 send in flight")
-		c.Rule("E2 slow handler: {active, passive} x generation ended by {Close(), linktest expiry (interval 2 s, T6 1 s, threshold 1)} x {1, 2} reply-expected sends waiting while the receive goroutine is inside a data handler that takes 4 s: every waiting send returns the connection-closed error within 1 s of the end of the generation (T3 = 30 s, close timeout 10 s), Close returns once the handler has; and {active, passive} x {1, 2} waiting sends x Close() on a link whose peer has stopped reading with nobody mid-write (data write timeout 5 s): every waiting send returns the connection-closed error within 1 s, Close within 2 s")
+		c.Rule("E2 slow handler: {active, passive} x generation ended by {Close(), linktest expiry (interval 2 s, T6 1 s, threshold 1)} x {1, 2} reply-expected sends waiting while the receive goroutine is inside a data handler that takes 4 s: every waiting send returns the connection-closed error within 1 s of the end of the generation (T3 = 30 s, close timeout 10 s), Close returns once the handler has; and {active, passive} x {1, 2} waiting sends x Close() on a link whose peer has stopped reading with nobody mid-write (data write timeout 5 s): every waiting send returns the connection-closed error within 1 s, Close within 2 s; and {active, passive}: four fire-and-forget sends accepted on a link whose peer has stopped reading, the write times out, the async-send error callback takes 6 s (close timeout 1 s: generation 1's sender goroutine outlives its generation), generation 2 is established: none of the queued generation-1 messages appears on generation 2's socket after the callback returns")
 		c.Assume("testing/synctest", "sim network", "instrumented tree (scheduler inactive) so that mutex waits are durable blocks")
 		c.Rule("E3: every schedule with <= B departures (quick 1, thorough 2) of {sender (sync / async) pinned to generation 1, peer drop, reconnecting+selecting peer} on the real instrumented active connection; oracle: generation 2's socket never carries the generation-1 token, the synchronous call ends with a definite error")
 		if c.Replay != nil {
